@@ -21,8 +21,10 @@ T_MA == { G("m1", <<QI("q", 1)>>), G("m2", <<QI("q", 2), I1>>), G("m2", <<Qb("q"
 O_MA == { OSeq, OPar, OLoop(I2, FALSE), OSub(I1) }
 \* (B) fixed macros, rich main body
 M_MB == << MD("m1", <<"x">>, {"seq", "par"}, { G("X", <<Par("x")>>) }, {}, 1),
-           MD("m2", <<"x", "y">>, {"seq"}, { G("m1", <<Qb("q", Par("y"))>>) }, {}, 1) >>
-T_MB == { G("X", <<QI("q", 0)>>), G("m1", <<QI("q", 1)>>), G("m2", <<QI("q", 2), Let("a")>>) }
+           MD("m2", <<"x", "y">>, {"seq"}, { G("m1", <<Qb("q", Par("y"))>>) }, { OSub(Par("y")) }, 1),
+           \* a register parameter indexed by another parameter
+           MD("m3", <<"r", "i">>, {"seq"}, { G("X", <<QbP("r", Par("i"))>>), G("X", <<QbP("r", I0)>>) }, {}, 1) >>
+T_MB == { G("X", <<QI("q", 0)>>), G("m1", <<QI("q", 1)>>), G("m2", <<QI("q", 2), Let("a")>>), G("m3", <<RegA("q"), I2>>) }
 O_MB == { OSeq, OPar, OLoop(Let("b"), FALSE), OLoop(I2, TRUE), OSub(I1), OSub(I2) }
 
 \* ---------------------------------------------------------------- C05: constants in every position
@@ -58,7 +60,7 @@ H_X == { Hdr(<<DLet("a", I1), DLet("n", I2)>>, <<DReg("q", I3), DSlice("r", "q",
          \* a native table WITHOUT prepare_all / measure_all (expand_subcircuits has to make them up)
          Hdr(<<DLet("a", I1), DLet("n", I2)>>, <<DReg("q", I3), DSlice("r", "q", I0, Let("n"), None)>>, <<>>, ActiveGates) }
 M_X == << MD("m1", <<"x">>, {"seq"}, { G("X", <<Par("x")>>), G("X", <<QI("r", 0)>>) }, { OSub(I1), OLoop(Let("n"), FALSE) }, 1),
-          MD("m2", <<"x", "y">>, {"seq", "par"}, { G("m1", <<Par("x")>>), G("R", <<Par("x"), Par("y")>>) }, {}, 1) >>
+          MD("m2", <<"x", "y">>, {"seq", "par"}, { G("m1", <<Par("x")>>), G("R", <<Par("x"), Par("y")>>) }, { OSub(Par("y")) }, 1) >>
 T_X == { G("X", <<QI("r", 0)>>), G("m1", <<Qb("q", Let("a"))>>), G("m2", <<QI("q", 2), Let("n")>>),
          G("prepare_all", <<>>), G("measure_all", <<>>) }
 \* macros whose body is a single loop / parallel block / call, called directly inside blocks
@@ -92,6 +94,8 @@ O_E == { OSeq, OPar, OLoop(I0, FALSE), OLoop(I2, FALSE), OLoop(Let("t"), FALSE),
 \* loops and blocks around section boundaries (deep, two-gate alphabet)
 T_PM == { G("prepare_all", <<>>), G("measure_all", <<>>) }
 O_PM == { OSeq, OPar, OLoop(I2, FALSE), OLoop(I2, TRUE), OLoop(I0, FALSE) }
+\* loops only (zero-count and repeating) around prepare / measure events, exhaustive to 6 nodes
+O_L02 == { OLoop(I0, FALSE), OLoop(I2, FALSE) }
 
 \* ---------------------------------------------------------------- execution: gates (C03)
 H_G == { Hdr(<<DLet("k", I1), DLet("j", I2)>>, <<DReg("q", I3), DSlice("r", "q", I2, I0, NumI(-1)), DIndex("s", "q", I1)>>, <<>>, ExactGates) }
@@ -114,9 +118,15 @@ O_G2 == { OSub(I1) }
 H_P == { Hdr(<<>>, <<DReg("q", I3), DSlice("r", "q", I1, I3, None)>>, <<>>, ExactGates),
          \* a register sized by a let constant, an alias bounded by it
          Hdr(<<DLet("n", I3)>>, <<DReg("q", Let("n")), DSlice("r", "q", I1, Let("n"), None)>>, <<>>, ExactGates) }
-M_P == << MD("m", <<"x">>, {"seq"}, { G("X", <<Par("x")>>), G("CX", <<Par("x"), QI("q", 0)>>) }, {}, 1) >>
+\* n calls m; n's second formal has the NAME of m's formal and is bound to another qubit than the one n passes on
+M_P == << MD("m", <<"x">>, {"seq"}, { G("X", <<Par("x")>>), G("CX", <<Par("x"), QI("q", 0)>>) }, {}, 1),
+          MD("nn", <<"y", "x">>, {"seq"}, { G("m", <<Par("y")>>), G("m", <<Par("x")>>) }, {}, 1),
+          \* three names in a chain: o passes ITS y on as m2's x, and its z as m2's y
+          MD("m2", <<"x", "y">>, {"seq"}, { G("X", <<Par("x")>>) }, {}, 1),
+          MD("o", <<"x", "y", "z">>, {"seq"}, { G("m2", <<Par("y"), Par("z")>>) }, {}, 1) >>
 T_P == { G("X", <<QI("q", 0)>>), G("X", <<QI("q", 1)>>), G("CX", <<QI("q", 1), QI("q", 2)>>), G("X", <<QI("r", 0)>>),
-         G("m", <<QI("q", 2)>>), G("I_X", <<QI("q", 0)>>), G("H", <<QI("r", 1)>>) }
+         G("m", <<QI("q", 2)>>), G("I_X", <<QI("q", 0)>>), G("H", <<QI("r", 1)>>), G("nn", <<QI("q", 1), QI("q", 2)>>),
+         G("o", <<QI("q", 0), QI("q", 1), QI("q", 2)>>) }
 O_P == { OSub(I1), OPar, OSeq }
 
 \* ---------------------------------------------------------------- C01 / C17 / C20: everything the text can say
@@ -144,7 +154,7 @@ O_TD == { OSeq, OPar }          \* deep alternating nestings (TLC simulation)
 \* ---------------------------------------------------------------- C17: programs expressible in all three front ends
 H_F == { Hdr(<<DLet("a", I2), DLet("__r0", I3), DLet("__c0", I1)>>, <<DReg("q", Let("__r0"))>>, <<>>, <<>>) }
 T_F == { G("g", <<QI("q", 0), F15>>), G("k", <<Qb("q", Let("a"))>>), G("h", <<Let("a"), Let("__c0")>>), G("prepare_all", <<>>) }
-O_F == { OSeq, OPar, OLoop(Let("a"), FALSE), OLoop(I2, FALSE), OSub(I1), OSub(Let("__r0")) }
+O_F == { OSeq, OPar, OLoop(Let("a"), FALSE), OLoop(I2, FALSE), OLoop(I0, FALSE), OSub(I1), OSub(I0), OSub(Let("__r0")) }
 
 \* ---------------------------------------------------------------- C14: references that cannot be honoured
 VBase == <<DLet("a", I1), DLet("k", I3)>>
@@ -162,12 +172,15 @@ H_V == { Hdr(VBase, <<VReg, DSlice("r", "q", I1, I3, None), DIndex("s", "q", I2)
          Hdr(VBase, <<DReg("q", Let("k")), DIndex("s", "q", I2)>>, <<>>, ExactGates),         \* let-sized register
          Hdr(VBase, <<VReg, DSlice("r", "q", I2, I0, NumI(-1))>>, <<>>, ExactGates),          \* descending slice (2 elements)
          Hdr(VBase, <<VReg, DSlice("r", "q", I0, I3, I2)>>, <<>>, ExactGates) }               \* strided slice (2 elements)
-M_V == << MD("m", <<"x", "p">>, {"seq"}, { G("X", <<Qb("q", Par("p"))>>), G("R", <<Par("x"), Par("p")>>) }, {}, 1) >>
+\* macro w's register parameter q SHADOWS register q: "X q[2]" inside w is a different reference from "X q[2]" inside b
+M_V == << MD("m", <<"x", "p">>, {"seq"}, { G("X", <<Qb("q", Par("p"))>>), G("R", <<Par("x"), Par("p")>>) }, {}, 1),
+          MD("b", <<>>, {"seq"}, { G("X", <<QI("q", 2)>>) }, {}, 1),
+          MD("w", <<"q">>, {"seq"}, { G("X", <<QbP("q", I2)>>), G("X", <<QbP("q", I0)>>) }, {}, 1) >>
 T_V == { G("X", <<QI("q", 0)>>), G("X", <<QI("q", 2)>>), G("X", <<QI("q", 3)>>), G("X", <<Qb("q", NumI(-1))>>),
          G("X", <<Qb("q", Let("k"))>>), G("X", <<Qb("q", Let("a"))>>), G("m", <<QI("q", 2), I3>>), G("m", <<QI("q", 0), I1>>),
          G("R", <<QI("q", 0), F15>>), G("X", <<Qb("a", I0)>>), G("X", <<Let("u")>>), G("U", <<QI("q", 0)>>),
          G("X", <<QI("q", 0), QI("q", 1)>>), G("R", <<QI("q", 1), Let("a")>>),
-         G("X", <<QI("r", 1)>>), G("X", <<QI("r", 2)>>) }
+         G("X", <<QI("r", 1)>>), G("X", <<QI("r", 2)>>), G("w", <<RegA("r")>>), G("w", <<RegA("q")>>), G("b", <<>>) }
 O_V == { OSub(I1) }
 
 \* ---------------------------------------------------------------- C06: alias chains (two links over a register of size 3..4)
